@@ -551,7 +551,7 @@ pub fn fuzz_targets_of(property: &str) -> Vec<(&'static str, u64)> {
     // (125/s), `diff` (30/s) and `render` (18/s) exist in harness/fuzz for manual use but are not
     // part of a registered command -- the proptest engine covers those oracles 100x faster
     match property {
-        "C06" => vec![("markdown", 100_000)],
+        "C06" => vec![("markdown", 50_000)],
         "C07" => vec![("cram", 30_000)],
         "C10" => vec![("update", 40_000)],
         "C11" => vec![("escape", 60_000)],
